@@ -38,6 +38,8 @@ use super::config;
 use super::constant::fixed::MAX_LPC_ORDER as MAX_FIXED_LPC_ORDER;
 use super::constant::panic_msg;
 use super::constant::qlpc::MAX_ORDER as MAX_LPC_ORDER;
+use super::constant::MAX_BLOCK_SIZE;
+use super::constant::MIN_BLOCK_SIZE;
 use super::constant::MIN_BLOCK_SIZE_FOR_PREDICTION;
 use super::error::verify_range;
 use super::error::verify_true;
@@ -605,6 +607,19 @@ pub fn encode_fixed_size_frame(
         "encode_fixed_size_frame (framebuf.filled_size)",
         framebuf.filled_size(),
         1..
+    )?;
+    // `FrameBuf::resize` cannot report an error, so a buffer may arrive here
+    // with a size outside the supported block sizes, or smaller than what has
+    // been filled before the resize.
+    verify_range!(
+        "encode_fixed_size_frame (framebuf.size)",
+        framebuf.size(),
+        MIN_BLOCK_SIZE..=MAX_BLOCK_SIZE
+    )?;
+    verify_true!(
+        "encode_fixed_size_frame (framebuf.filled_size)",
+        framebuf.filled_size() <= framebuf.size(),
+        "must not exceed the size of the buffer"
     )?;
     // `encode_frame` reads one channel of `framebuf` per channel declared in
     // `stream_info`, so the two must agree.
